@@ -20,7 +20,22 @@ P = {
             "Metamorphic half compares the implementation with itself (C01 judges the base stream absolutely).", "4 C04"),
 }
 
-CLAIMED = ["C01", "C04"]
+P.update({
+    "C02": ("exploration", "runtime monitor: metamorphic single-chunk vs segmented execution of handle(), absolute tail and upgraded-byte-stream oracle with recording call_upgraded handlers; socket write/delay schedules through listen()",
+            "Streams (request sequences, messages around the 8 KiB internal buffers, upgrade + 0-40 KiB payload) x segmentations (every single cut, every pair of cuts for short streams, byte-at-a-time, random k-cuts, cuts at buffer boundaries) are executed through the real handle() with two caller models and through listen() sockets; replies must equal the single-chunk run, the tail must equal the bytes after the last NUL, and recording upgraded handlers must receive exactly the payload.",
+            "Reply bytes are compared implementation-against-itself; kernel-level segmentation is only sampled (write boundaries + delays).", "4 C02"),
+    "C03": ("exploration", "runtime monitor: recording Interface implementations + explicit routing specification over adversarial name sets and method strings",
+            "Random services with 0-6 recording interfaces whose names are adversarial (shared prefixes, a dotted prefix of another, hyphens/digits/upper case) are driven with every registered name x {known, unknown, empty} method, every prefix/suffix, empty elements, leading/trailing dots and service-interface calls with parameters of every JSON type; an explicit specification function decides which recorder (if any) must see the call unchanged and what the reply must be; GetInfo/GetInterfaceDescription are checked against the configuration.",
+            "Statement-silent cases (dot-less methods, non-string interface parameter) are counted as skipped_unspecified and only judged for 'no recorder called'.", "4 C03"),
+    "C05": ("exploration", "runtime monitor: per-op write/result log of scripted method implementations against a 20-line simulation; client iterator vs scripted fake server",
+            "Server half is exhaustive: every script over {set_continues(true/false), reply, reply_error} (thorough: + the three library error replies) up to length 5 x 4 flag combinations runs inside a real method implementation; a writer/Result log is checked op by op (gated attempt must fail and write nothing; otherwise exactly one frame with the right continues flag). Client half: MethodCall::more() against a fake server playing k continues + final (result/standard/custom error) then follow-up calls.",
+            "Exhaustive to the stated script length; trusts the harness' log ordering (single-threaded per handle() call).", "4 C05"),
+    "C06": ("fault_enumeration", "fault injection: systematic byte-level and structured corruption of valid request streams, judged against the replies to the well-formed prefix; listen() in a child process beside healthy neighbours",
+            "Every byte position of a 40-stream corpus x 8 byte-level operators + structured operators (retyped/removed members, nesting 1..10^4, empty, non-object, oversized) + random bytes through handle() under catch_unwind, and through listen() in a child process (so an abort is an exit status) with a concurrently pipelining healthy neighbour checked by the C01 aligner and later connections.",
+            "Classifier of 'malformed' is written by hand from the statement; duplicate keys, out-of-range numbers and nesting >100 are don't-care (containment only). Allocation failure is out of reach.", "4 C06"),
+})
+
+CLAIMED = ["C01", "C02", "C03", "C04", "C05", "C06"]
 
 ALL = ["C%02d" % i for i in range(1, 21)]
 
